@@ -2,6 +2,11 @@ package pow
 
 import (
 	"context"
+	"crypto"
+	_ "crypto/md5"
+	_ "crypto/sha1"
+	_ "crypto/sha256"
+	_ "crypto/sha512"
 	"encoding/binary"
 	"math"
 )
@@ -30,6 +35,9 @@ func targetFor(data []byte, mode string) float64 {
 }
 
 func mineCall(ctx context.Context, data []byte, mode string, nw int) (uint64, error) {
+	if nw == -99 { // no count given
+		return New().Mine(ctx, data, targetFor(data, mode))
+	}
 	return New(nw).Mine(ctx, data, targetFor(data, mode))
 }
 
@@ -41,4 +49,12 @@ func nonceOK(data []byte, nonce uint64, mode string) bool {
 	var nb [8]byte
 	binary.LittleEndian.PutUint64(nb[:], nonce)
 	return Score(append(append([]byte{}, data...), nb[:]...)) >= targetFor(data, mode)
+}
+
+// withAltHash configures another PoW digest function (digests of at most 32 bytes, so that digest and nonce fit one Curl
+// block) and returns the function that restores the previous one.
+func withAltHash(k int) func() {
+	old := Hash
+	Hash = []crypto.Hash{crypto.BLAKE2b_256, crypto.SHA224, crypto.SHA1, crypto.MD5, crypto.SHA256, crypto.SHA512_224}[k%6]
+	return func() { Hash = old }
 }
